@@ -11,7 +11,7 @@ Open Scope Z_scope.
 #[local] Arguments Z.leb : simpl never.
 
 Ltac unf := unfold result, no_cancel, fallback_nc, race_nc, cancelled_at, direct, indirect, connect_end, lookup,
-  d_connecting, running_at, end_time, ind_fail_residue, ind_cancel_residue, dir_cancel_residue, loser_indirect, loser_direct,
+  d_connecting, running_at, end_time, ind_fail_residue, ind_send_raises, SEND_FAILURE_DISCONNECT_DETACHED, ind_cancel_residue, dir_cancel_residue, loser_indirect, loser_direct,
   loser_orphan, F, server_alive, direct_ok, indirect_ok, lookup_ok, returns, residue_free,
   PEER_CONNECT_TIMEOUT, PEER_INDIRECT_CONNECT_TIMEOUT, LOOKUP_HAS_TIMEOUT, LOOKUP_TIMEOUT,
   CONNECT_CLOSES_ON_CANCEL, ATTEMPT_CLOSES_ON_CANCEL, INDIRECT_CLEANUP_ALWAYS, RACE_CANCELS_LOSER, RACE_DISCONNECTS_SECOND,
@@ -68,7 +68,7 @@ Proof. destruct b; reflexivity. Qed.
 Lemma ind_cancel_residue_false : ind_cancel_residue = false.
 Proof. reflexivity. Qed.
 Lemma ind_fail_residue_false s : ind_fail_residue s = false.
-Proof. unfold ind_fail_residue. destruct (ir s); try reflexivity. destruct (server_alive s); reflexivity. Qed.
+Proof. unfold ind_fail_residue, INDIRECT_CLEANUP_ALWAYS. cbn. apply andb_false_r. Qed.
 
 Lemma residue_free_cancelled s x : residue_free (cancelled_at s x) = true.
 Proof.
